@@ -91,7 +91,7 @@ where
 impl<'a, K> Functor<K, L, L, L, L> for SpecFunctor<'a>
 where
     K: Dev,
-    K::Type<usize>: NaturalArray<K>,
+    K::Type<usize>: NaturalArray<K> + PartialEq,
     K::Type<L>: Array<K, L> + PartialEq + std::fmt::Debug,
     K::Type<u64>: Array<K, u64> + PartialEq + std::fmt::Debug,
     K::Index: std::fmt::Debug,
@@ -313,7 +313,7 @@ pub struct ClosureFunctor {
 impl<K> Functor<K, L, L, L, L> for ClosureFunctor
 where
     K: Dev,
-    K::Type<usize>: NaturalArray<K>,
+    K::Type<usize>: NaturalArray<K> + PartialEq,
     K::Type<L>: Array<K, L> + PartialEq + std::fmt::Debug,
     K::Type<u64>: Array<K, u64> + PartialEq + std::fmt::Debug,
     K::Index: std::fmt::Debug,
@@ -339,7 +339,7 @@ pub struct HalfOptic<'a> {
 impl<'a, K> Functor<K, L, L, L, L> for HalfOptic<'a>
 where
     K: Dev,
-    K::Type<usize>: NaturalArray<K>,
+    K::Type<usize>: NaturalArray<K> + PartialEq,
     K::Type<L>: Array<K, L> + PartialEq + std::fmt::Debug,
     K::Type<u64>: Array<K, u64> + PartialEq + std::fmt::Debug,
     K::Index: std::fmt::Debug,
